@@ -143,6 +143,11 @@ package codegen
 //@ trusted (context.Context).Value(key) (v)
 //@   nopanic
 //@   pure
+// C14: the generated Complexity method is looked up by the complexity walker under the SCHEMA's type and field
+// names; its case labels are checked against the generated package (engine/family.go complexityLabelObligations):
+// every label is T.f of a generated (type, field) pair and every pair has its label.
+//@ family complexityswitch [C14]
+//@   ensures calls(Complexity) == 0
 // Response handlers returned by Exec (query, mutation, subscription): the bytes that become Response.Data are
 // marshalled into a buffer declared inside the handler, i.e. one per call - a transport may still hold an earlier
 // response (multipart/mixed batches payloads between flush ticks) when the next one is produced (C12, C13).
